@@ -54,6 +54,129 @@ def generate(rng, tier):
     for _ in range(nh // 4):
         yield S.random_history(rng, "pl", validators=["id"])
     yield from malformed_cases(rng, nh // 2)
+    yield from nonreflexive_histories(rng, nh // 4, "tl")
+    yield from nonreflexive_histories(rng, nh // 16, "pl")
+
+
+# ---------------------------------------------------------------------------
+# non-reflexive items (model-compared): the item codes 900..909 stand for ten fixed OBJECTS that do not
+# compare equal to themselves (five distinct float NaNs, five instances of a class whose __eq__ returns
+# False).  The builtin list looks items up identity-first (`x is y or x == y`), so on such objects
+# `remove(x)` finds exactly the positions holding the very object x — which is plain integer equality on
+# the codes, i.e. what Model/Py/List does with `eqv` = equality of the codes the driver sees.
+# ---------------------------------------------------------------------------
+
+NR_BASE = 900
+_POOL = []
+
+
+def _pool():
+    if not _POOL:
+        class NeverEqual:
+            __slots__ = ()
+
+            def __eq__(self, other):
+                return False
+
+            def __ne__(self, other):
+                return True
+            __hash__ = object.__hash__
+
+        class RaisingEq:
+            __slots__ = ()
+
+            def __eq__(self, other):
+                raise RuntimeError("== is not defined")
+            __hash__ = object.__hash__
+
+        class AlwaysEqual:
+            __slots__ = ()
+
+            def __eq__(self, other):
+                return True
+            __hash__ = object.__hash__
+        _POOL.extend([float("nan") for _ in range(5)] + [NeverEqual() for _ in range(5)]
+                     + [RaisingEq() for _ in range(3)] + [AlwaysEqual() for _ in range(2)])
+    return _POOL
+
+
+def _obj(x):
+    if type(x) is int and NR_BASE <= x < NR_BASE + len(_pool()):
+        return _pool()[x - NR_BASE]
+    return x
+
+
+def _code(x):
+    for i, o in enumerate(_pool()):
+        if x is o:
+            return NR_BASE + i
+    return x
+
+
+def _codes(l):
+    return [_code(x) for x in l]
+
+
+def _plain(v):
+    """hit details without live pool objects (they go into JSON replay files)"""
+    if isinstance(v, (list, tuple)):
+        return [_plain(x) for x in v]
+    if isinstance(v, dict):
+        return {k: _plain(x) for k, x in v.items()}
+    return _code(v)
+
+
+def _objectify_op(op):
+    k = op[0]
+    if k in ("si", "in"):
+        return (k, op[1], _obj(op[2]))
+    if k in ("ap", "rm"):
+        return (k, _obj(op[1]))
+    if k in ("ss", "ex", "ia"):
+        it = op[-1]
+        for i in range(len(it)):
+            it[i] = _obj(it[i])
+    return op
+
+
+def nonreflexive_histories(rng, n, kind):
+    for _ in range(n):
+        codes = [NR_BASE + i for i in range(10)]
+
+        def item():
+            return rng.choice(codes) if rng.random() < 0.6 else rng.choice([0, 1, 2, 3])
+        init = [item() for _ in range(rng.randint(0, 5))]
+        present = list(init)
+        ops = []
+        for _ in range(rng.randint(1, 8)):
+            r = rng.random()
+            if r < 0.4:
+                ops.append("rm %d" % (rng.choice(present) if present and rng.random() < 0.75 else item()))
+            elif r < 0.5:
+                x = item()
+                present.append(x)
+                ops.append("ap %d" % x)
+            elif r < 0.6:
+                x = item()
+                present.append(x)
+                ops.append("in %d %d" % (rng.randint(-2, 4), x))
+            elif r < 0.7:
+                x = item()
+                present.append(x)
+                ops.append("si %d %d" % (rng.randint(-3, 3), x))
+            elif r < 0.8:
+                xs = [item() for _ in range(rng.randint(0, 2))]
+                present.extend(xs)
+                ops.append("%s %s[%s]" % (rng.choice(["ex", "ia"]), rng.choice(["", "g", "t"]), ",".join(map(str, xs))))
+            elif r < 0.85:
+                ops.append("po %d" % rng.randint(-2, 3))
+            elif r < 0.9:
+                ops.append("rv")
+            elif r < 0.95:
+                ops.append("im %d" % rng.randint(0, 2))
+            else:
+                ops.append("ds N N 2")
+        yield "%s|id|%s|%s" % (kind, S.show_list(init), ";".join(ops))
 
 
 # ---------------------------------------------------------------------------
@@ -80,6 +203,9 @@ def _weird(name):
         "dict": lambda: {1: 2}, "emptydict": lambda: {}, "set": lambda: {3}, "list": lambda: [1, 2], "emptylist": lambda: [],
         "np0": lambda: np.zeros(1, dtype=int), "npa0": lambda: np.array([0]), "np3": lambda: np.arange(3),
         "npempty": lambda: np.array([], dtype=int), "npint": lambda: np.int64(1), "idx2": lambda: Idx(2), "idxneg": lambda: Idx(-1),
+        "float2": lambda: 2.0, "frac1": lambda: __import__("fractions").Fraction(1), "frac0": lambda: __import__("fractions").Fraction(0),
+        "dec1": lambda: __import__("decimal").Decimal(1), "dec2": lambda: __import__("decimal").Decimal(2), "cplx1": lambda: 1 + 0j,
+        "npfloat1": lambda: np.float64(1.0), "npfloat0": lambda: np.float64(0.0), "str1": lambda: "1",
         "idxraise": lambda: Idx("x"), "bigint": lambda: 10 ** 30, "negbig": lambda: -10 ** 30, "int1": lambda: 1, "intm1": lambda: -1,
     }
     return table[name]()
@@ -94,16 +220,25 @@ def malformed_cases(rng, n):
     import json
     for _ in range(n):
         init = [rng.choice([0, 1, 2, 3, 5]) for _ in range(rng.randint(0, 4))]
+        objs = rng.random() < 0.3
+        if objs:      # items that are not reflexive under == (NaN, __eq__ -> False), whose == raises, or is always true
+            init = [rng.choice([0, 1, 2]) if rng.random() < 0.3 else NR_BASE + rng.randrange(15) for _ in range(rng.randint(0, 5))]
         ops = []
         for _ in range(rng.randint(1, 4)):
             m = rng.choice(["extend", "extend", "iadd", "setslice", "setitem", "delitem", "insert", "pop", "imul"])
+            if objs and rng.random() < 0.8:
+                m = rng.choice(["remove", "remove", "index", "count", "contains"])
+                ops.append([m, rng.choice(init) if init and rng.random() < 0.7 else NR_BASE + rng.randrange(15)])
+                continue
             if m in ("extend", "iadd"):
                 a = rng.choice([w for w in WEIRD_ITER if not (m == "iadd" and w.startswith("np"))])
                 ops.append([m, a])
             elif m == "setslice":
                 ops.append([m, rng.choice([None, 0, 1, -1]), rng.choice([None, 1, 2, 5]), rng.choice([None, 1, 2, -1]), rng.choice(WEIRD_ITER)])
             elif m == "imul":
-                ops.append([m, rng.choice(["true", "false", "npint", "idx2", "fzero", "none", "int1", "bigint"])])
+                ops.append([m, rng.choice(["true", "false", "npint", "idx2", "fzero", "none", "int1", "bigint", "zero", "intm1", "idxneg",
+                                          "float1", "float2", "frac1", "frac0", "dec1", "dec2", "cplx1", "npfloat1", "npfloat0",
+                                          "str1", "float1", "frac1", "dec1"])])
             elif m in ("setitem", "insert"):
                 ops.append([m, rng.choice(WEIRD_IDX), 9])
             else:
@@ -132,14 +267,22 @@ def _apply_weird(l, op):
         if isinstance(w, int) and abs(w) > 10 ** 6:
             raise OverflowError("skipped")
         l *= w
+    elif m == "remove":
+        l.remove(_obj(op[1]))
+    elif m == "index":
+        return l.index(_obj(op[1]))
+    elif m == "count":
+        return l.count(_obj(op[1]))
+    elif m == "contains":
+        return _obj(op[1]) in l
     return None
 
 
 def run_malformed(c):
     from traits.trait_list_object import TraitList
     events = []
-    tl = TraitList(list(c["init"]), notifiers=[lambda t, i, r, a: events.append((i, list(r), list(a)))])
-    plain = list(c["init"])
+    tl = TraitList([_obj(x) for x in c["init"]], notifiers=[lambda t, i, r, a: events.append((i, list(r), list(a)))])
+    plain = [_obj(x) for x in c["init"]]
     hits, tags, outs = [], set(), []
     for op in c["ops"]:
         snap = list(tl)
@@ -155,6 +298,10 @@ def run_malformed(c):
         except Exception as e:
             te = e
         sig = "%s(%s)" % (op[0], op[-1] if op[0] in ("extend", "iadd", "setslice", "imul") else op[1])
+        if op[0] in ("remove", "index", "count", "contains"):
+            kinds = ["nan"] * 5 + ["never-equal"] * 5 + ["eq-raises"] * 3 + ["always-equal"] * 2
+            inside = any(x is _obj(op[1]) for x in snap)
+            sig = "%s(%s,%s)" % (op[0], kinds[op[1] - NR_BASE] if op[1] >= NR_BASE else "int", "in-list" if inside else "absent")
         tags.add("mal:" + op[0])
         after = list(tl)
         pn = type(pe).__name__ if pe is not None else None
@@ -162,28 +309,28 @@ def run_malformed(c):
         if pn != tn:
             hits.append(_hit("unusual-arg-exception-differs:" + sig, "list: %s, TraitList: %s" % (pn, tn)))
             plain = list(after)
-        elif after != plain:
-            hits.append(_hit("unusual-arg-contents-differ:" + sig, "contents differ from builtin list", expected=plain, observed=after))
+        elif _codes(after) != _codes(plain):
+            hits.append(_hit("unusual-arg-contents-differ:" + sig, "contents differ from builtin list", expected=_codes(plain), observed=_codes(after)))
             plain = list(after)
-        elif pr != tr:
+        elif _code(pr) != _code(tr):
             hits.append(_hit("unusual-arg-return-differs:" + sig, "return value differs"))
-        if te is not None and (after != snap or events):
+        if te is not None and (_codes(after) != _codes(snap) or events):
             hits.append(_hit("failed-op-mutated:" + sig, "failing operation changed the list or notified"))
         if len(events) > 1:
             hits.append(_hit("several-events:" + sig, "%d events" % len(events)))
-        if after != snap and len(events) != 1:
-            hits.append(_hit("change-without-event:" + sig, "contents changed, %d events" % len(events), before=snap, after=after))
+        if _codes(after) != _codes(snap) and len(events) != 1:
+            hits.append(_hit("change-without-event:" + sig, "contents changed, %d events" % len(events), before=_codes(snap), after=_codes(after)))
         for ix, removed, added in events:
             try:
                 rep = py_replay(snap, ix, removed, added)
             except Exception as e:
                 rep = "replay raised " + type(e).__name__
-            if rep != after:
-                hits.append(_hit("replay-law:" + sig, "event does not replay to the contents", snapshot=snap,
-                                 event=[repr(ix), repr(removed), repr(added)], after=repr(after)))
+            if not isinstance(rep, list) or _codes(rep) != _codes(after):
+                hits.append(_hit("replay-law:" + sig, "event does not replay to the contents", snapshot=_codes(snap),
+                                 event=[repr(ix), repr(_codes(removed)), repr(_codes(added))], after=repr(_codes(after))))
             if not isinstance(ix, slice) and not (type(ix) is int and 0 <= ix <= len(snap)):
                 hits.append(_hit("index-normal-form:" + sig, "index %r is not a plain int in 0..len" % (ix,)))
-        outs.append("err " + tn if tn else "ok [" + ",".join(str(x) for x in after) + "]")
+        outs.append("err " + tn if tn else "ok [" + ",".join(str(x) for x in _codes(after)) + "]")
     return " ; ".join(outs), hits, tags
 
 
@@ -218,15 +365,24 @@ def run_impl(case):
     tags = set()
     hits = []
     outs = []
+    if vspec == "id" and any(str(NR_BASE + i) in case for i in range(10)):
+        # item codes 900..909 are fixed non-reflexive objects (see `_pool`); shown again as their codes
+        for i in range(len(init)):
+            init[i] = _obj(init[i])
+        ops = [_objectify_op(o) for o in ops]
+        tags.add("nonreflexive-items")
+
+    def show_list(l):
+        return S.show_list(_codes(l))
     if kind == "pl":
         l = list(init)
         for op in ops:
             try:
                 r = S.apply_op(l, op)
-                outs.append("ok %s %s -" % (S.show_list(l), "-" if r is None else r))
+                outs.append("ok %s %s -" % (show_list(l), "-" if r is None else _code(r)))
             except Exception as e:
                 outs.append("err " + S.exc_name(e))
-        return " ; ".join(outs), [], ["pl"]
+        return " ; ".join(outs), [], ["pl"] + sorted(tags)
     v = S.Validator(vspec)
     events = []
     held = []      # (raw removed, raw added, their copies at notification time, op kind): a faithful delta stays faithful
@@ -329,7 +485,7 @@ def run_impl(case):
             if after != ref:
                 hits.append(_hit("contents-differ:" + sig_op, "contents differ from builtin list on validated items",
                                  expected=ref, observed=after))
-            if lret != ret:
+            if _code(lret) != _code(ret):
                 hits.append(_hit("return-differs:" + sig_op, "return value differs", expected=lret, observed=ret))
         shadow = list(after)
         # (2) events
@@ -363,8 +519,10 @@ def run_impl(case):
         ev = "-"
         if events:
             ix, removed, added = events[0]
-            ev = "E %s %s %s" % (S.show_index(ix), S.show_list(removed), S.show_list(added))
-        outs.append("ok %s %s %s" % (S.show_list(after), "-" if ret is None else ret, ev))
+            ev = "E %s %s %s" % (S.show_index(ix), show_list(removed), show_list(added))
+        outs.append("ok %s %s %s" % (show_list(after), "-" if ret is None else _code(ret), ev))
+    if "nonreflexive-items" in tags:
+        hits = [_plain(h) for h in hits]
     if spy_calls:
         hits.append(_hit("notifier-list-aliases-caller-list", "a notifier appended to the caller's own list after construction was called "
                          "(the TraitList shares the list object passed as `notifiers`)", calls=len(spy_calls)))
